@@ -83,6 +83,7 @@ def check_artefact(ctx, a, stats):
     eq = side["eq"]
     sign_out = np.sign(eq["psi_sep"][0] - eq["psi_axis"]) if ("psi_sep" in eq and "psi_axis" in eq) else 1.0
     is_x = a.config.get("family") == "X"
+    extrap = bool(side["eq"]["user_options"].get("extrapolate_profiles"))
     signs = set()
     if opts.get("cap_Bp_ylow_xpoint"):
         return
@@ -125,8 +126,18 @@ def check_artefact(ctx, a, stats):
             psi_here = ref.psi(R, Z)
             if fh is not None:
                 want = fh(psi_here) / R
-                viol("Btxy=fpol(psi)/R", reg, loc, np.where(ok, np.abs(A["Btxy"][loc] - want), 0),
-                     1e-9 * np.maximum(1.0, np.abs(want)))
+                ftol = 1e-9 * np.maximum(1.0, np.abs(want))
+                if extrap:
+                    # the library splines the profile continued by a constant: inside the last
+                    # few profile intervals its spline differs from the checker's (built on the
+                    # input profile alone, clamped beyond it) by the ringing of the kink at the
+                    # joint, which decays by ~0.27 per interval
+                    hprof = (phi - plo) / max(1, a.config.get("nprof", 65) - 1)
+                    edge_psi = phi if sign_out > 0 else plo
+                    near = np.abs(psi_here - edge_psi) < 8 * hprof
+                    beyond = (psi_here - edge_psi) * sign_out > 0
+                    ftol = np.where(near | beyond, 1e-3 * np.abs(want), 1e-6 * np.maximum(1.0, np.abs(want)))
+                viol("Btxy=fpol(psi)/R", reg, loc, np.where(ok, np.abs(A["Btxy"][loc] - want), 0), ftol)
             else:
                 viol("Btxy=0 without fpol", reg, loc, np.abs(A["Btxy"][loc]), 0.0)
             viol("Bxy=hypot(Bpxy,Btxy)", reg, loc,
@@ -143,9 +154,21 @@ def check_artefact(ctx, a, stats):
                     stats["pressure_pfr_points_inside_profile"] += int(inside.sum())
                 want = ph(psi_eval)
                 # derivative of the profile times the psi uncertainty of a grid point
+                ptol_ = 1e-6 * np.maximum(1.0, np.abs(want))
+                if extrap:
+                    hprof = (phi - plo) / max(1, a.config.get("nprof", 65) - 1)
+                    edge_psi = phi if sign_out > 0 else plo
+                    ptol_ = np.where(np.abs(psi_eval - edge_psi) < 8 * hprof, 1e-3 * np.maximum(1.0, np.abs(want)), ptol_)
+                    # beyond the profile: continued from the edge value, decaying, never negative
+                    p_edge = float(ph(edge_psi))
+                    outside = ok & ~inside
+                    got_p = A["pressure"][loc]
+                    stats["pressure_points_extrapolated"] = stats.get("pressure_points_extrapolated", 0) + int(outside.sum())
+                    viol("extrapolated pressure lies between 0 and the edge value", reg, loc,
+                         np.where(outside, np.maximum(-got_p, got_p - abs(p_edge)), 0), 1e-6 * max(1.0, abs(p_edge)))
                 viol("pressure=p(psi)%s" % (" reflected about the leg's separatrix" if is_leg else ""),
                      reg, loc, np.where(inside, np.abs(A["pressure"][loc] - want), 0),
-                     1e-6 * np.maximum(1.0, np.abs(want)), got=A["pressure"][loc], want=want)
+                     ptol_, got=A["pressure"][loc], want=want)
         # direction of Bp along increasing y: one sign, equal to sign(Bpxy), on every cell
         Rm, Zm = A["Rxy"], A["Zxy"]
         dyR = Rm["ylow"][:, 1:] - Rm["ylow"][:, :-1]
@@ -244,7 +267,9 @@ def run_extrapolation_case(case):
         outside = float(eq.pressure(sep + eps * dpsi))
         out.append((eps, inside, outside))
     far = float(eq.pressure(psi_sol))
-    return dict(p_edge=p_edge, jumps=out, far=far)
+    fj = [(eps, float(eq.fpol(sep - eps * dpsi)), float(eq.fpol(sep + eps * dpsi))) for eps in (1e-3, 1e-5, 1e-7)]
+    return dict(p_edge=p_edge, jumps=out, far=far, f_edge=float(inp["fpol1D"][-1]), f_jumps=fj,
+                f_far=[float(eq.fpol(sep + t * (psi_sol - sep))) for t in (0.25, 0.5, 1.0)])
 
 
 def check_extrapolation(ctx, stats):
@@ -264,6 +289,16 @@ def check_extrapolation(ctx, stats):
                               dict(case=case, eps=eps, inside=pin, outside=pout, p_edge=p0, tol=tol),
                               replay=dict(kind="extrap", case=case))
                 break
+        f0 = res["f_edge"]
+        for eps, fin, fout in res["f_jumps"]:
+            if abs(fout - fin) > (200 * eps + 1e-8) * abs(f0):
+                ctx.violation("extrapolate_profiles | fpol discontinuous at the last profile point",
+                              dict(case=case, eps=eps, inside=fin, outside=fout, f_edge=f0),
+                              replay=dict(kind="extrap", case=case))
+                break
+        if max(abs(f - f0) for f in res["f_far"]) > 1e-3 * abs(f0):
+            ctx.violation("extrapolate_profiles | fpol beyond the profile is not the edge value",
+                          dict(case=case, f_far=res["f_far"], f_edge=f0), replay=dict(kind="extrap", case=case))
         if not (0 <= res["far"] <= abs(p0) * (1 + 1e-9)):
             ctx.violation("extrapolate_profiles | extrapolated pressure does not decay from the edge value",
                           dict(case=case, far=res["far"], p_edge=p0), replay=dict(kind="extrap", case=case))
